@@ -129,6 +129,9 @@ pub fn partial_clause(prop: &str, clause: &str, wi: usize, view: &View, visits: 
 }
 
 pub fn walker_probes(w: &Walker, out: &mut Outcome) {
+    if w.spelling == Spelling::Empty {
+        out.probe("base:spelled-as-the-empty-path");
+    }
     if let Spelling::Above { levels, .. } = w.spelling {
         out.probe(if levels == 255 { "base:root-of-the-file-system" } else { "base:above-the-world" });
     }
@@ -318,4 +321,24 @@ pub fn maybe_above(g: &mut crate::gen::Gen, w: &mut Walker, one_in: usize) {
     }
     w.source = Source::Glob { expr, rooted: false };
     w.spelling = Spelling::Above { levels, slash: g.rng.chance(1, 3) };
+}
+
+/// Sometimes spells the base of a glob walker as the empty path (only where the working directory
+/// is the base and the glob begins with a literal component, so that the walk root is named by
+/// the glob's own prefix).
+pub fn maybe_empty_base(g: &mut crate::gen::Gen, w: &mut Walker, cwd: &str, one_in: usize) {
+    if w.base != cwd || matches!(w.spelling, Spelling::Above { .. }) {
+        return;
+    }
+    let Source::Glob { expr, rooted: false } = &w.source
+    else {
+        return;
+    };
+    let first = expr.split('/').next().unwrap_or("");
+    let literal = !first.is_empty()
+        && dot_kind(first).is_none()
+        && !first.contains(['*', '?', '[', '{', '<', '(', '$', '\\']);
+    if literal && g.rng.chance(1, one_in) {
+        w.spelling = Spelling::Empty;
+    }
 }
